@@ -14,7 +14,7 @@
 (* library reads its own clock, so it over-estimates the library's elapsed time (R5).    *)
 (* Only upper bounds on counts and the lower bound on the first run are judged; jitter   *)
 (* (late runs, fewer runs than possible) is never flagged.                               *)
-EXTENDS Integers, Sequences, TLC, Json, IOUtils
+EXTENDS Integers, Sequences, TLC, Json, IOUtils, TimedRecProps
 
 RecLog == ndJsonDeserialize(IOEnv.TRACE)
 
@@ -23,21 +23,6 @@ VARIABLE l   \* record under judgement
 RecInit == l = 1
 RecNext == l <= Len(RecLog) /\ l' = l + 1
 RecSpec == RecInit /\ [][RecNext]_l
-
-\* kSmallTimeBuffer (10 us) + clock-rate mismatch between dispenso::getTime() and steady_clock
-EarlyTol(delay) == 10 + 100 + delay \div 50
-\* bodies that passed the wrapper's cancelled check before cancel()'s store may still enter (R2):
-\* one per thread that executes wrappers
-Executors(kind) == IF kind = 0 THEN 1 ELSE 2
-
-RecOK(r) ==
-  /\ r.n >= 0 /\ r.n <= r.times                                     \* at most timesToRun invocations
-  /\ ((r.falseAt > 0 /\ r.kind = 0) => r.n <= r.falseAt)             \* none after it returned false (serial)
-  /\ (r.first >= 0 => r.first >= r.delay - EarlyTol(r.delay))        \* never before its scheduled time
-  /\ r.calls <= r.enteredAtCalls /\ r.calls <= r.times               \* calls() counts completed invocations
-  /\ (r.atCancel >= 0 => r.n <= r.atCancel + Executors(r.kind))      \* none starts after cancel() (R2)
-  /\ (r.action # 3 => r.inprog = 0 /\ r.late = 0 /\ r.fdead = 1)     \* ~TimedTask(): quiescent, function gone
-  /\ r.uaf = 0
 
 RecordsOK == l > Len(RecLog) \/ RecOK(RecLog[l])
 
